@@ -206,6 +206,10 @@ impl Iterator for OsuGradualDifficulty {
 
 impl ExactSizeIterator for OsuGradualDifficulty {
     fn len(&self) -> usize {
+        if self.osu_objects.is_empty() {
+            return 0;
+        }
+
         self.diff_objects.len() + 1 - self.idx
     }
 }
